@@ -1571,7 +1571,7 @@ void CheckUninitVar::uninitvarError(const Token* tok, const ValueFlow::Value& v)
 {
     if (!mSettings->isEnabled(&v))
         return;
-    if (diag(tok))
+    if (tok && diag(tok))
         return;
     const Token* ltok = tok;
     if (tok && Token::simpleMatch(tok->astParent(), ".") && astIsRHS(tok))
@@ -1808,8 +1808,9 @@ void CheckUninitVar::getErrorMessages(ErrorLogger* errorLogger, const Settings* 
     CheckUninitVar c(nullptr, settings, errorLogger);
 
     ValueFlow::Value v{};
+    v.setKnown();
 
-    c.uninitvarError(nullptr, v); // TODO: does not produce any output
+    c.uninitvarError(nullptr, v);
     c.uninitdataError(nullptr, "varname");
     c.uninitStructMemberError(nullptr, "a.b");
 }
